@@ -459,4 +459,438 @@ func c14ParseChecked(c *Ctx, pr *PropertyRun, entries []*ssa.Function) {
 	r.RequireRole("parse-call")
 }
 
-func c14Tables(c *Ctx, pr *PropertyRun) {}
+// ---------------------------------------------------------------------------
+// status decision tables (E2)
+
+var c14Codes = []int64{0, 100, 199, 200, 201, 204, 207, 299, 300, 404, 500, 599}
+
+func httpErrOf(in *Interp, v Val) (code int64, inner Val, ok bool) {
+	iv, isI := v.(Iface)
+	if !isI {
+		return 0, nil, false
+	}
+	ptr, isP := iv.V.(Ptr)
+	if !isP {
+		return 0, nil, false
+	}
+	st, isS := ptr.C.Get().(Struct)
+	if !isS || !isNamed(st.T, pkgInternal, "HTTPError") {
+		return 0, nil, false
+	}
+	code, _ = in.concretise(st.F[0].Get())
+	return code, st.F[1].Get(), true
+}
+
+func isNilVal(v Val) bool {
+	k, ok := v.(Konst)
+	return ok && k.V == nil
+}
+
+func c14Tables(c *Ctx, pr *PropertyRun) {
+	p := c.P
+	r := NewRule("C14", "C14.status-tables", "decision tables of Status.Err, Response.Err, Response.Path, internal.(*Client).Do, DoMultiStatus and carddav SyncCollection over status classes equal the statement (E2)")
+	r.Exhaustive = true
+	r.Bounds = fmt.Sprintf("status codes %v; sync-collection responses <= 2", c14Codes)
+	pr.Rules = append(pr.Rules, r)
+	codeDomain := func(key string) []int64 {
+		if strings.HasSuffix(key, "Code") || strings.HasSuffix(key, "StatusCode") {
+			return c14Codes
+		}
+		if strings.HasPrefix(key, "len(") {
+			return []int64{0, 1}
+		}
+		return nil
+	}
+	run := func(spec DTXSpec, min int) {
+		res := runDTX(c, spec)
+		reportDTX(c, r, spec, res, spec.Name)
+		r.Role("decision-table")
+		r.Count("rows_"+spec.Name, res.Runs)
+		if res.Runs < min {
+			r.Unresolved(fmt.Sprintf("table %s has %d rows, fewer than %d", spec.Name, res.Runs, min))
+		}
+	}
+	errObs := func(in *Interp, res Val, pan *panicOutcome) string {
+		if pan != nil {
+			return "panic"
+		}
+		if isNilVal(res) {
+			return "nil"
+		}
+		// the error "carries" a status when errors.As finds an HTTPError in its chain
+		cur := res
+		for i := 0; i < 8; i++ {
+			if code, _, ok := httpErrOf(in, cur); ok {
+				return fmt.Sprintf("HTTPError(%d)", code)
+			}
+			w, ok := in.unwrapErr(cur, nil)
+			if !ok {
+				break
+			}
+			cur = w
+		}
+		return "other-error"
+	}
+	// Status.Err
+	if fn := p.MustFunc(r, pkgInternal, "(*Status).Err"); fn != nil {
+		run(DTXSpec{Name: "Status.Err", Entry: fn,
+			Sym:     SymSpec{IntDomain: codeDomain},
+			Args:    func(in *Interp) []Val { return []Val{in.symOf(fn.Params[0].Type(), "s")} },
+			Observe: errObs,
+			Oracle: func(env *OracleEnv) ([]string, bool) {
+				if !env.Bool("s!=nil") {
+					return []string{"nil"}, true
+				}
+				code := env.Int("s.Code")
+				switch {
+				case code == 200:
+					return []string{"nil"}, true
+				case code/100 == 2:
+					// other 2xx: the code says TODO; both readings are accepted
+					return []string{"nil", fmt.Sprintf("HTTPError(%d)", code)}, true
+				}
+				return []string{fmt.Sprintf("HTTPError(%d)", code)}, true
+			}}, 5)
+	}
+	// Response.Err
+	if fn := p.MustFunc(r, pkgInternal, "(*Response).Err"); fn != nil {
+		run(DTXSpec{Name: "Response.Err", Entry: fn,
+			Sym:     SymSpec{IntDomain: codeDomain, NonNil: func(k string) bool { return k == "resp" }},
+			Args:    func(in *Interp) []Val { return []Val{in.symOf(fn.Params[0].Type(), "resp")} },
+			Observe: errObs,
+			Oracle: func(env *OracleEnv) ([]string, bool) {
+				if !env.Bool("resp.Status!=nil") {
+					return []string{"nil"}, true
+				}
+				code := env.Int("resp.Status.Code")
+				if code/100 == 2 {
+					return []string{"nil"}, true
+				}
+				return []string{fmt.Sprintf("HTTPError(%d)", code)}, true
+			}}, 5)
+	}
+	// Response.Path: the error is Err()'s whenever Err() is non-nil; the path
+	// is the single href
+	if fn := p.MustFunc(r, pkgInternal, "(*Response).Path"); fn != nil {
+		run(DTXSpec{Name: "Response.Path", Entry: fn,
+			Sym: SymSpec{IntDomain: codeDomain, NonNil: func(k string) bool { return k == "resp" }, MaxLen: func(string, types.Type) int { return 2 },
+				Override: func(key string, t types.Type) Val { return nil }},
+			Setup: func(in *Interp) {
+				in.OpenExternal = func(n *types.Named) bool { return n.Obj().Pkg().Path() == "net/url" && n.Obj().Name() == "URL" }
+			},
+			Args: func(in *Interp) []Val { return []Val{in.symOf(fn.Params[0].Type(), "resp")} },
+			Observe: func(in *Interp, res Val, pan *panicOutcome) string {
+				if pan != nil {
+					return "panic"
+				}
+				t := res.(Tuple)
+				return "path=" + keyOf(t.E[0]) + " err=" + errObs(in, t.E[1], nil)
+			},
+			Oracle: func(env *OracleEnv) ([]string, bool) {
+				n := env.Len("resp.Hrefs", 2)
+				statusErr := "nil"
+				if env.Bool("resp.Status!=nil") {
+					if code := env.Int("resp.Status.Code"); code/100 != 2 {
+						statusErr = fmt.Sprintf("HTTPError(%d)", code)
+					}
+				}
+				path := "\"\""
+				if n == 1 {
+					path = "resp.Hrefs[0].Path"
+				}
+				if statusErr != "nil" {
+					return []string{"path=" + path + " err=" + statusErr}, true
+				}
+				if n == 1 {
+					return []string{"path=" + path + " err=nil"}, true
+				}
+				return []string{"path=\"\" err=other-error"}, true
+			}}, 6)
+	}
+	c14DoTable(c, r, run, codeDomain)
+	c14SyncTable(c, r, run)
+}
+
+func c14DoTable(c *Ctx, r *RuleResult, run func(DTXSpec, int), codeDomain func(string) []int64) {
+	p := c.P
+	fn := p.MustFunc(r, pkgInternal, "(*Client).Do")
+	dms := p.MustFunc(r, pkgInternal, "(*Client).DoMultiStatus")
+	if fn == nil || dms == nil {
+		return
+	}
+	respT := p.lookupType("net/http", "Response")
+	httpModels := func(in *Interp, site ssa.CallInstruction, name string, args []Val) (Val, bool) {
+		cc := site.Common()
+		switch {
+		case cc.IsInvoke() && cc.Method.Name() == "Do" && strings.HasSuffix(name, "HTTPClient).Do"):
+			in.effect("http.Do", site.Pos())
+			if in.truth(LazyBool{"transport-error"}) {
+				return Tuple{[]Val{kNil, in.mkErr(&ErrObj{Kind: "ext", Msg: kStr("transport error"), Key: "transport-error"})}}, true
+			}
+			return Tuple{[]Val{in.symPointee(respT, "resp"), kNil}}, true
+		case cc.IsInvoke() && cc.Method.Name() == "Close":
+			in.effect("Close", site.Pos(), args[0])
+			return kNil, true
+		case name == "mime.ParseMediaType":
+			return Tuple{[]Val{SymStr{Key: "mediatype"}, Opaque{"params", cc.Signature().Results().At(1).Type()}, kNil}}, true
+		case name == "(*encoding/xml.Decoder).Decode":
+			in.effect("xml.Decode", site.Pos())
+			if in.truth(LazyBool{"body-decode-fails"}) {
+				return in.mkErr(&ErrObj{Kind: "ext", Msg: kStr("xml error"), Key: "xml-error"}), true
+			}
+			return kNil, true
+		case name == "encoding/xml.NewDecoder":
+			return Opaque{"decoder", cc.Signature().Results().At(0).Type()}, true
+		case name == "io.Copy":
+			return Tuple{[]Val{kInt(0), kNil}}, true
+		case name == "(*bytes.Buffer).String":
+			return SymStr{Key: "bodytext"}, true
+		case name == "strings.TrimSpace":
+			return args[0], true
+		}
+		return nil, false
+	}
+	openHTTP := func(n *types.Named) bool {
+		pp := n.Obj().Pkg().Path()
+		return (pp == "net/http" && n.Obj().Name() == "Response") || (pp == "io" && n.Obj().Name() == "LimitedReader") || (pp == "bytes" && n.Obj().Name() == "Buffer")
+	}
+	run(DTXSpec{Name: "Client.Do", Entry: fn,
+		Sym: SymSpec{IntDomain: codeDomain, NonNil: func(k string) bool { return true }},
+		Setup: func(in *Interp) {
+			in.Models = append(in.Models, httpModels)
+			in.OpenExternal = openHTTP
+		},
+		Args: func(in *Interp) []Val {
+			return []Val{in.symOf(fn.Params[0].Type(), "c"), Opaque{"req", fn.Params[1].Type()}}
+		},
+		Observe: func(in *Interp, res Val, pan *panicOutcome) string {
+			if pan != nil {
+				return "panic"
+			}
+			t := res.(Tuple)
+			if isNilVal(t.E[1]) {
+				if isNilVal(t.E[0]) {
+					return "nil-response-without-error"
+				}
+				return "response"
+			}
+			if code, inner, ok := httpErrOf(in, t.E[1]); ok {
+				kind := "none"
+				if !isNilVal(inner) {
+					kind = "other"
+					if iv, isI := inner.(Iface); isI {
+						if e, isE := iv.V.(*ErrObj); isE {
+							kind = keyOfErr(e)
+						} else if n := namedOf(iv.Dyn); n != nil {
+							kind = n.Obj().Name()
+						}
+					}
+				}
+				closed := 0
+				for _, e := range in.Trace {
+					if e.Name == "Close" {
+						closed++
+					}
+				}
+				return fmt.Sprintf("HTTPError(%d,%s,closed=%v)", code, kind, closed > 0)
+			}
+			if iv, ok := t.E[1].(Iface); ok {
+				if e, ok := iv.V.(*ErrObj); ok {
+					return "error:" + keyOfErr(e)
+				}
+			}
+			return "other-error"
+		},
+		Oracle: func(env *OracleEnv) ([]string, bool) {
+			if env.Bool("transport-error") {
+				return []string{"error:transport-error"}, true
+			}
+			code := env.Int("resp.StatusCode")
+			if code/100 == 2 {
+				return []string{"response"}, true
+			}
+			// the content type decides which detail is attached
+			mt := S("mediatype")
+			kind := "none"
+			switch {
+			case env.Eq(mt, K("application/xml")) || env.Eq(mt, K("text/xml")):
+				if env.Bool("body-decode-fails") {
+					kind = "xml-error"
+				} else {
+					kind = "Error"
+				}
+			case env.Bool("strings.HasPrefix(mediatype,\"text/\")"):
+				if env.Eq(S("bodytext"), K("")) {
+					kind = "none"
+				} else {
+					return []string{fmt.Sprintf("HTTPError(%d,new:fmt(\"%%v\"|bodytext),closed=true)", code), fmt.Sprintf("HTTPError(%d,new:fmt(\"%%v\"|(bodytext+\" […]\")),closed=true)", code)}, true
+				}
+			}
+			return []string{fmt.Sprintf("HTTPError(%d,%s,closed=true)", code, kind)}, true
+		}}, 10)
+	// DoMultiStatus: 207 required
+	doFn := fn
+	run(DTXSpec{Name: "Client.DoMultiStatus", Entry: dms,
+		Sym: SymSpec{IntDomain: codeDomain, NonNil: func(k string) bool { return true }},
+		Setup: func(in *Interp) {
+			in.Models = append(in.Models, func(in *Interp, site ssa.CallInstruction, name string, args []Val) (Val, bool) {
+				if name == fullFnName(doFn) {
+					// Do's own table is checked above: here it yields a 2xx response or an error
+					if in.truth(LazyBool{"do-fails"}) {
+						return Tuple{[]Val{kNil, in.mkErr(&ErrObj{Kind: "ext", Msg: kStr("do error"), Key: "do-error"})}}, true
+					}
+					return Tuple{[]Val{in.symPointee(respT, "resp"), kNil}}, true
+				}
+				return nil, false
+			}, httpModels)
+			in.OpenExternal = openHTTP
+		},
+		Args: func(in *Interp) []Val {
+			return []Val{in.symOf(dms.Params[0].Type(), "c"), Opaque{"req", dms.Params[1].Type()}}
+		},
+		Observe: func(in *Interp, res Val, pan *panicOutcome) string {
+			if pan != nil {
+				return "panic"
+			}
+			t := res.(Tuple)
+			closed := false
+			for _, e := range in.Trace {
+				if e.Name == "Close" {
+					closed = true
+				}
+			}
+			if isNilVal(t.E[1]) {
+				return fmt.Sprintf("multistatus(closed=%v)", closed)
+			}
+			return fmt.Sprintf("error(closed=%v)", closed)
+		},
+		Oracle: func(env *OracleEnv) ([]string, bool) {
+			if env.Bool("do-fails") {
+				return []string{"error(closed=false)"}, true
+			}
+			code := env.Int("resp.StatusCode")
+			if code/100 != 2 {
+				return nil, false // Do never hands out such a response
+			}
+			if code != 207 {
+				return []string{"error(closed=true)"}, true
+			}
+			if env.Bool("body-decode-fails") {
+				return []string{"error(closed=true)"}, true
+			}
+			return []string{"multistatus(closed=true)"}, true
+		}}, 4)
+}
+
+func c14SyncTable(c *Ctx, r *RuleResult, run func(DTXSpec, int)) {
+	p := c.P
+	fn := p.MustFunc(r, pkgCarddav, "(*Client).SyncCollection")
+	icSync := p.MustFunc(r, pkgInternal, "(*Client).SyncCollection")
+	decodeProp := p.MustFunc(r, pkgInternal, "(*Response).DecodeProp")
+	encReq := p.Func(pkgCarddav, "encodeAddressPropReq")
+	if fn == nil || icSync == nil || decodeProp == nil {
+		return
+	}
+	msT := p.NamedType(pkgInternal, "MultiStatus")
+	codes := []int64{200, 404, 500}
+	run(DTXSpec{Name: "carddav.SyncCollection", Entry: fn,
+		Sym: SymSpec{NonNil: func(k string) bool { return !strings.HasSuffix(k, ".Status") },
+			MaxLen: func(key string, _ types.Type) int {
+				if key == "ms.Responses" {
+					return 2
+				}
+				return 1
+			},
+			IntDomain: func(key string) []int64 {
+				if strings.HasSuffix(key, ".Code") {
+					return codes
+				}
+				if key == "query.Limit" {
+					return []int64{0}
+				}
+				return nil
+			},
+			Override: func(key string, t types.Type) Val {
+				// exactly one href per response: the multi-href form is Path's table
+				return nil
+			}},
+		Setup: func(in *Interp) {
+			in.OpenExternal = func(n *types.Named) bool { return n.Obj().Pkg().Path() == "net/url" && n.Obj().Name() == "URL" }
+			in.Models = append(in.Models, func(in *Interp, site ssa.CallInstruction, name string, args []Val) (Val, bool) {
+				switch {
+				case name == fullFnName(icSync):
+					if in.truth(LazyBool{"request-fails"}) {
+						return Tuple{[]Val{kNil, in.mkErr(&ErrObj{Kind: "ext", Msg: kStr("request error"), Key: "request-error"})}}, true
+					}
+					return Tuple{[]Val{in.symPointee(msT, "ms"), kNil}}, true
+				case name == fullFnName(decodeProp):
+					return kNil, true
+				case encReq != nil && name == fullFnName(encReq):
+					return Tuple{[]Val{Opaque{"propreq", site.Common().Signature().Results().At(0).Type()}, kNil}}, true
+				case name == "fmt.Sprintf":
+					return nil, false
+				}
+				return nil, false
+			})
+		},
+		Args: func(in *Interp) []Val {
+			return []Val{in.symOf(fn.Params[0].Type(), "c"), Opaque{"ctx", fn.Params[1].Type()}, SymStr{Key: "path"}, in.symOf(fn.Params[3].Type(), "query")}
+		},
+		Observe: func(in *Interp, res Val, pan *panicOutcome) string {
+			if pan != nil {
+				return "panic"
+			}
+			t := res.(Tuple)
+			if !isNilVal(t.E[1]) {
+				return "error"
+			}
+			ptr, ok := t.E[0].(Ptr)
+			if !ok {
+				return "nil-result"
+			}
+			st := ptr.C.Get().(Struct)
+			var upd, del []string
+			if s, ok := st.F[1].Get().(Slice); ok {
+				for _, e := range s.E {
+					upd = append(upd, keyOf(e.Get().(Struct).F[0].Get()))
+				}
+			}
+			if s, ok := st.F[2].Get().(Slice); ok {
+				for _, e := range s.E {
+					del = append(del, keyOf(e.Get()))
+				}
+			}
+			return "updated=[" + strings.Join(upd, " ") + "] deleted=[" + strings.Join(del, " ") + "]"
+		},
+		Oracle: func(env *OracleEnv) ([]string, bool) {
+			if env.Bool("request-fails") {
+				return []string{"error"}, true
+			}
+			n := env.Len("ms.Responses", 2)
+			var upd, del []string
+			for i := 0; i < n; i++ {
+				rk := fmt.Sprintf("ms.Responses[%d]", i)
+				if env.Len(rk+".Hrefs", 1) != 1 {
+					return nil, false
+				}
+				href := rk + ".Hrefs[0].Path"
+				code := int64(200)
+				if env.Bool(rk + ".Status!=nil") {
+					code = env.Int(rk + ".Status.Code")
+				}
+				switch {
+				case code == 404:
+					del = append(del, href)
+				case code/100 != 2:
+					return []string{"error"}, true
+				default:
+					// the collection itself is skipped
+					if env.Eq(S(href), S("path")) || env.Eq(S("path"), S("fmt(\"%s/\"|"+href+")")) {
+						continue
+					}
+					upd = append(upd, href)
+				}
+			}
+			return []string{"updated=[" + strings.Join(upd, " ") + "] deleted=[" + strings.Join(del, " ") + "]"}, true
+		}}, 8)
+}
